@@ -32,7 +32,9 @@ ASSUMPTIONS = [
     "non-delivery is always accepted",
     "node power transitions themselves belong to C12: the power ops drive the node to OFF / ON and only the software "
     "consequences are asserted; timing assertions are suspended for a transition interrupted by a power event",
-    "fix is required to succeed only when health is GOOD or COMPROMISED; execute of a RUNNING application may have any status",
+    "fix is required to succeed only when health is GOOD or COMPROMISED; execute of a RUNNING application may have any status; "
+    "'a refused request changes nothing' is asserted for requests the reference machine refuses through validators / node "
+    "power / absence, not for an execute that reaches its handler and fails there",
 ]
 
 H0, H1 = "h0", "h1"
@@ -671,8 +673,9 @@ def _run(case, res, game, sim, node, peer, sm, spy, kind, typ, ops, base):
                     res.violate(f"refused-request-changed-operating-state:{sig_tail}", f"{when}: {r.status}, {pre} -> {obs}")
                 elif not after_same and expect == "refuse":
                     res.violate(f"refused-request-changed-state:{sig_tail}", f"{when}: {r.status} but describe_state() of the node differs")
-                elif not after_same:
-                    res.violate(f"refused-execute-changed-state:{kind}:{where}", f"{when}: {r.status} but describe_state() of the node differs")
+                # (execute on an INSTALLING application reaches its handler and is answered 'failure' there; the property does
+                # not say a failed execute leaves counters such as num_executions untouched, so only status and operating
+                # state are asserted for it)
             elif expect == "accept":
                 n_accepted += 1
                 if r.status == "unreachable":
